@@ -799,3 +799,170 @@ Theorem C02_hash_prefix_collision_refuted :
           |}].
 Proof. exact hash_prefix_collision_refuted. Qed.
 
+(* ==== DATABASE-KNOWN PROPERTIES UNDER REFLECTION (Proofs/XmlKnownProps.v), generic in the per-value law of the value codec (26 simple types;
+   extended codec: CFrame, OptionalCFrame, NumberRange, sequences, BrickColor, Tags, MaterialColors): for a described non-migrating property the
+   writer emits exactly one element under the SERIALIZED name holding the value converted to the serialized type, and the reader stores, under
+   the CANONICAL name, norm_known of it — the identity on NaN-free values except for the documented normalisations (Color3 in a byte-colour
+   property quantised; Font clamping).  Whole file (xml_roundtrip_known): with the default options (IgnoreUnknown) and with Write/ReadUnknown, for
+   DOMs with one spelling per logical property: same forest, every known property back under its canonical name with norm_known of its value,
+   Refs relabelled, SharedStrings restored, unknown properties dropped by the default options (kept under their own key otherwise), no duplicate
+   keys.  Instantiated on the BUNDLED database by an executable check over all 22 588 (class, key) pairs with exactly two exceptions, which are
+   the recorded finding canonical-name-changes as theorems (seras_not_back_refuted: Sound.MaxDistance comes back as RollOffMaxDistance,
+   MaterialService.Use2022Materials as Use2022MaterialsXml; seras_clash_refuted: with both set one value is lost).  Two spellings of one property
+   on one instance: the outcome is a function of the property MAP (the spelling last in byte order survives), not of its listing. *)
+From RbxVerif Require Import DbCheck XmlKnownProps.
+
+Theorem C02_known_prop_step :
+  forall (e : xenv) (vc : vcodec (xe_o e)) (ebeh : ebehavior) (dbeh : dbehavior) 
+         (c : bytes) (keys : list bytes) (st : estate) (k : bytes) (v : value) (canon ser ser' : pdesc)
+         (ev : list wevent) (st' : estate),
+       ebeh <> ENoReflection ->
+       dbeh <> DNoReflection ->
+       find_desc_xml (xe_db e) (S_ c) (S_ k) = Ok (Some (canon, ser)) ->
+       nonmig ser ->
+       nonmig canon ->
+       find_desc_xml (xe_db e) (S_ c) (pd_name ser) = Ok (Some (canon, ser')) ->
+       nonspecial v ->
+       (forall w : value, try_convert (xe_o e) v (dtype_vt (pd_type ser)) = Ok w -> vc_ok vc w) ->
+       serialize_property e ebeh c keys st k v = Ok (ev, st') ->
+       exists (w : value) (tag : bytes) (inner : list wevent) (revs : list revent),
+         try_convert (xe_o e) v (dtype_vt (pd_type ser)) = Ok w /\
+         write_xml (xe_o e) w = Some (tag, Ok inner) /\
+         st' = st /\
+         ev = WStart tag (name_attr (B (pd_name ser))) :: inner ++ [WEnd] /\
+         chan_elems ev revs /\
+         (forall v' : value,
+          norm_known (xe_o e) (vc_norm vc) (dtype_vt (pd_type ser)) (dtype_vt (pd_type canon)) v = Ok v' ->
+          forall (dst : dstate) (id : N) (props : list (bytes * value)) (e0 : revent) (rest : list revent),
+          nonchar e0 ->
+          deserialize_property e dbeh c id tag (B (pd_name ser)) dst props (revs ++ e0 :: rest)%list =
+          Ok (dst, bupd (B (pd_name canon)) v' props, e0 :: rest)).
+Proof. exact known_prop_step. Qed.
+
+Theorem C02_xml_roundtrip_known :
+  forall (e : xenv) (vc : vcodec (xe_o e)) (keep : bool) (d : cdom) (roots : list N) 
+         (evs : list wevent) (revs : list revent),
+       input_ok d roots ->
+       hash_ok e ->
+       known_dom e vc keep d roots ->
+       xml_encode e (ebeh_of keep) d roots = Ok evs ->
+       channel evs = Ok revs ->
+       exists d' : cdom,
+         xml_decode e (dbeh_of keep) revs = Ok d' /\
+         forest_rel d roots d' /\ Forall2 (known_back e vc keep d (written d roots)) (written d roots) d'.
+Proof. exact xml_roundtrip_known. Qed.
+
+Theorem C02_xml_roundtrip_known_db :
+  forall (e : xenv) (vc : vcodec (xe_o e)) (keep : bool) (exc : list (string * string)) 
+         (d : cdom) (roots : list N) (evs : list wevent) (revs : list revent),
+       db_coherent (xe_db e) = true ->
+       db_keys_ok (xe_db e) exc = true ->
+       db_names_ok (xe_db e) = true ->
+       input_ok d roots ->
+       hash_ok e ->
+       db_dom e vc keep exc d roots ->
+       xml_encode e (ebeh_of keep) d roots = Ok evs ->
+       channel evs = Ok revs ->
+       exists d' : cdom,
+         xml_decode e (dbeh_of keep) revs = Ok d' /\
+         forest_rel d roots d' /\ Forall2 (known_back e vc keep d (written d roots)) (written d roots) d'.
+Proof. exact xml_roundtrip_known_db. Qed.
+
+Theorem C02_xml_roundtrip_known_bundled :
+  forall (e : xenv) (vc : vcodec (xe_o e)) (keep : bool) (d : cdom) (roots : list N) 
+         (evs : list wevent) (revs : list revent),
+       xe_db e = Database.database ->
+       input_ok d roots ->
+       hash_ok e ->
+       db_dom e vc keep bundled_exceptions d roots ->
+       xml_encode e (ebeh_of keep) d roots = Ok evs ->
+       channel evs = Ok revs ->
+       exists d' : cdom,
+         xml_decode e (dbeh_of keep) revs = Ok d' /\
+         forest_rel d roots d' /\ Forall2 (known_back e vc keep d (written d roots)) (written d roots) d'.
+Proof. exact xml_roundtrip_known_bundled. Qed.
+
+Theorem C02_bundled_keys_ok :
+  db_keys_ok Database.database bundled_exceptions = true.
+Proof. exact bundled_keys_ok. Qed.
+
+Theorem C02_norm_known_identity :
+  forall (o : xoracle) (v : value), nan_free v -> norm_known o norm_simple (vtype v) (vtype v) v = Ok v.
+Proof. exact norm_known_identity. Qed.
+
+Theorem C02_norm_known_color3_quantised :
+  forall (o : xoracle) (cty : N) (r g b : f32) (r' g' b' : N),
+       xo_quant o r = Some r' ->
+       xo_quant o g = Some g' ->
+       xo_quant o b = Some b' ->
+       norm_known o norm_simple XT_Color3uint8 cty (VColor3 r g b) = Ok (VColor3uint8 r' g' b').
+Proof. exact norm_known_color3_quantised. Qed.
+
+Theorem C02_two_spellings_listing_irrelevant :
+  forall (e : xenv) (eb : ebehavior) (db : dbehavior) (d d' : cdom) (roots : list N),
+       XmlDeterminism.props_permuted d d' -> thru e eb db d' roots = thru e eb db d roots.
+Proof. exact two_spellings_listing_irrelevant. Qed.
+
+Theorem C02_two_spellings_last_wins :
+  forall (e : xenv) (keep : bool) (c : bytes) (ps : list pelem) (t : bytes),
+       Forall (rd_ok e c) ps ->
+       bfind t (store_all (reflD e (dbeh_of keep)) c ps []) =
+       blast t (List.map p_kv (filter_map (tr e keep c) ps)) None.
+Proof. exact two_spellings_last_wins. Qed.
+
+Theorem C02_seras_not_back_refuted :
+  key_ok_b Database.database "Sound" "MaxDistance" = false /\
+       key_ok_b Database.database "MaterialService" "Use2022Materials" = false /\
+       thru e_b EIgnoreUnknown DIgnoreUnknown
+         [{|
+            i_ref := 1;
+            i_parent := 0;
+            i_class := B "Sound";
+            i_name := B "s";
+            i_props := [(B "MaxDistance", VFloat32 F32_ONE)]
+          |}] [1] =
+       Ok
+         [{|
+            i_ref := 1;
+            i_parent := 0;
+            i_class := B "Sound";
+            i_name := B "s";
+            i_props := [(B "RollOffMaxDistance", VFloat32 F32_ONE)]
+          |}] /\
+       thru e_b EIgnoreUnknown DIgnoreUnknown
+         [{|
+            i_ref := 1;
+            i_parent := 0;
+            i_class := B "MaterialService";
+            i_name := B "s";
+            i_props := [(B "Use2022Materials", VBool true)]
+          |}] [1] =
+       Ok
+         [{|
+            i_ref := 1;
+            i_parent := 0;
+            i_class := B "MaterialService";
+            i_name := B "s";
+            i_props := [(B "Use2022MaterialsXml", VBool true)]
+          |}].
+Proof. exact seras_not_back_refuted. Qed.
+
+Theorem C02_seras_clash_refuted :
+  thru e_b EIgnoreUnknown DIgnoreUnknown
+         [{|
+            i_ref := 1;
+            i_parent := 0;
+            i_class := B "Sound";
+            i_name := B "s";
+            i_props := [(B "MaxDistance", VFloat32 F32_ONE); (B "RollOffMaxDistance", VFloat32 F32_HALF)]
+          |}] [1] =
+       Ok
+         [{|
+            i_ref := 1;
+            i_parent := 0;
+            i_class := B "Sound";
+            i_name := B "s";
+            i_props := [(B "RollOffMaxDistance", VFloat32 F32_HALF)]
+          |}].
+Proof. exact seras_clash_refuted. Qed.
+
